@@ -1,10 +1,18 @@
 use crate::define::Result;
 use crate::error::Error;
 use crate::value::Value;
+#[cfg(feature = "verif_hooks")]
+use crate::verif_hooks::sync::OnceCell;
+#[cfg(not(feature = "verif_hooks"))]
 use once_cell::sync::OnceCell;
 use rust_decimal::prelude::FromPrimitive;
 use rust_decimal::Decimal;
 use std::collections::HashMap;
+#[cfg(feature = "verif_hooks")]
+use crate::verif_hooks::sync::Mutex;
+#[cfg(feature = "verif_hooks")]
+use std::sync::Arc;
+#[cfg(not(feature = "verif_hooks"))]
 use std::sync::{Arc, Mutex};
 
 pub type InfixOpFunc = dyn Fn(Value, Value) -> Result<Value> + Send + Sync + 'static;
